@@ -1,7 +1,7 @@
 //! Contains hex writer of AVRA-rs
 
 use crate::builder::BuildResult;
-use failure::Error;
+use failure::{bail, Error};
 use ihex::Record;
 use std::{fs::File, io::Write, path::PathBuf};
 
@@ -13,13 +13,19 @@ pub struct GenerateResult {
 fn generate_hex_from_segment(segment: &[u8]) -> Result<String, Error> {
     let mut records = vec![];
     if segment.len() > 0 {
-        records.push(Record::ExtendedSegmentAddress(0x0));
+        // one extended segment address record per 64 KiB block; the base is counted in 16 byte paragraphs
+        for (b, block) in segment.chunks(0x10000).enumerate() {
+            if b > 0xf {
+                bail!("image does not fit Intel HEX segment addressing (1 MiB)");
+            }
+            records.push(Record::ExtendedSegmentAddress((b as u16) << 12));
 
-        for (i, chunk) in segment.chunks(16).enumerate() {
-            records.push(Record::Data {
-                offset: i as u16 * 16,
-                value: chunk.to_vec(),
-            });
+            for (i, chunk) in block.chunks(16).enumerate() {
+                records.push(Record::Data {
+                    offset: (i * 16) as u16,
+                    value: chunk.to_vec(),
+                });
+            }
         }
     }
     records.push(Record::EndOfFile);
